@@ -80,7 +80,7 @@ def raid_one(name, vects, n, ctx, img, exe, off=0):
                     p, q = spec_pq(vd[:vects - 2], i)
                     vd[vects - 2][i], vd[vects - 1][i] = p, q
         ok, msg = validate_concrete(img, mk_setup(img, name, kind, mode, vects, n, vd, off=off), exe)
-        if not ok:
+        if ok is False:
             return {"status": ERROR, "detail": "translator validation failed (%s vects=%d len=%d): %s" % (name, vects, n, msg)}
         validated += 1
     # ---- symbolic run
